@@ -942,12 +942,30 @@ func init() {
 		}
 		f.O.BigPayload = 200
 		f.O.Budget += 6
+		f.O.InvalidArg = 150
+		if f.O.Publishers == 0 {
+			f.O.Publishers = 1
+		}
 	}, "short_write_timeout", "write_break")})
 	register("C11", Family{Name: "requests", Weight: 400, Run: flowFamily(func(f *Flow) {
 		f.O.Publishers = f.W.Tape.Draw("npub11", 2)
 		f.O.Requesters = 2 + f.W.Tape.Draw("nreq11", 6)
 		f.O.PerReq = 1 + f.W.Tape.Draw("perreq11", 5)
 		f.O.ReqMix = [rkKinds]int{1, 0, 3, 1, 1, 3, 3}
+		if f.W.Tape.Flip("blocked-writer", 200) {
+			// a writer that blocks for good (no PauseTimeout, a peer that
+			// takes nothing) with requests queued behind it: their quit
+			// still has to work
+			f.O.PauseTimeout = 0
+			f.O.PartW = 3
+			f.O.HalfCloseW = 3
+			if f.O.BreakW == 0 {
+				f.O.BreakW = 1
+			}
+			f.O.BigPayload = 300
+			f.O.QuitMix = [4]int{2, 1, 1, 6}
+			f.O.Budget += 3
+		}
 		if f.W.Tape.Flip("ping-heavy", 300) {
 			// the single ping slot under contention: quits, lost
 			// connections and pongs of abandoned pings
@@ -1027,6 +1045,18 @@ func init() {
 			f.O.Budget += 3
 		}
 	}, "class_ErrSubmit", "class_ErrBreak", "class_ErrDown", "class_ErrCanceled", "class_ErrAbandoned")})
+	// the classes of requests that are in flight when the client is closed
+	register("C14", Family{Name: "closing", Weight: 1, Run: flowFamily(func(f *Flow) {
+		o := &f.O
+		o.Publishers = f.W.Tape.Draw("npub14c", 2)
+		o.Requesters = 3 + f.W.Tape.Draw("nreq14c", 3)
+		o.PerReq = 3 + f.W.Tape.Draw("perreq14c", 5)
+		o.ReqMix = [rkKinds]int{2, 0, 2, 1, 1, 2, 5}
+		o.QuitMix = [4]int{5, 1, 1, 1}
+		o.Closers = 1 + f.W.Tape.Draw("nclosers14", 2)
+		o.CloserMix = [4]int{3, 2, 1, 1}
+		o.CloserW = 1
+	}, "class_ErrClosed", "closer_online", "closer_online-writer-in-flight")})
 	register("C17", Family{Name: "windows", Weight: 600, Run: flowFamily(func(f *Flow) {
 		f.O.ALOMax = []int{1, 0, 2, 3, -1, 20000}[f.W.Tape.Draw("alomax17", 6)]
 		f.O.EOMax = []int{1, 0, 2, 3, -1, 20000}[f.W.Tape.Draw("eomax17", 6)]
